@@ -47,6 +47,7 @@ static uint64_t siphash24(const uint8_t* in, size_t len, uint64_t k0, uint64_t k
 // ---------------------------------------------------------------- generated declarations
 struct TableRow { const char* name; size_t len; uint64_t ct_hash; std::vector<uint8_t> (*empty_bytes)(); std::vector<uint8_t> (*full_bytes)(); };
 struct MethodRow { const char* iname; size_t ilen; const char* mname; int bits; uint64_t ct_ihash; uint64_t ct_selector; uint64_t ct_selector_by_index; uint64_t (*rt_ihash)(); };
+struct ArrRow { const uint8_t* bytes; size_t n; uint64_t k0, k1; uint64_t ct; uint64_t (*rt)(uint64_t, uint64_t); };
 struct LitRow { const char* lit; size_t len; uint64_t k0, k1; uint64_t ct; uint64_t (*rt)(uint64_t, uint64_t); };
 
 template <typename T> std::vector<uint8_t> EmptyTableBytes() {
@@ -121,6 +122,14 @@ static void c18_random(uint64_t ncases) {
   }
   // array overload with fixed sizes
   if (mine(7) && !args().replay()) {
+    size_t na = sizeof(kArrRows) / sizeof(kArrRows[0]);
+    for (size_t i = 0; i < na; i++) {
+      const ArrRow& a = kArrRows[i]; uint64_t ref = refsip::siphash24(a.bytes, a.n, a.k0, a.k1); volatile uint64_t vk0 = a.k0, vk1 = a.k1;
+      rep().count("c18_array_overload_cases"); rep().note(hash_combine(hash_bytes(a.bytes, a.n, 21), hash_combine(a.k0, a.k1)), true);
+      std::string cj = case_desc("array-overload", (int64_t)i, "array", J().s("bytes", hex(a.bytes, a.n, 48)).str());
+      if (a.ct != ref) rep().violation("oracle-siphash:array-overload:compile-time!=reference", fmt("Compute(const T(&)[%zu]) over bytes %s = %016" PRIx64 ", SipHash-2-4 = %016" PRIx64, a.n, hex(a.bytes, a.n, 24).c_str(), a.ct, ref), cj);
+      if (a.rt(vk0, vk1) != a.ct) rep().violation("oracle-siphash:array-overload:compile-time!=run-time", "array overload: constexpr and run-time results differ", cj);
+    }
     static const uint8_t a9[9] = {1, 2, 3, 4, 5, 6, 7, 8, 9}; static const char c5[5] = {'h', 'e', 'l', 'l', 'o'};
     if (nop::SipHash::Compute(a9, 1, 2) != refsip::siphash24(a9, 9, 1, 2)) rep().violation("oracle-siphash:array-overload", "array overload (uint8_t[9]) != reference", "");
     if (nop::SipHash::Compute(c5, 3, 4) != refsip::siphash24((const uint8_t*)c5, 5, 3, 4)) rep().violation("oracle-siphash:array-overload", "array overload (char[5]) != reference", "");
@@ -223,6 +232,7 @@ template <typename T> struct EndianCheck {
   }
   void fail(const char* op, T x, T got, T exp) {
     failed = true;
+    { char key[96]; snprintf(key, sizeof key, "oracle-endian:%s:%s", tname, op); auto it = rep().viols.find(key); if (it != rep().viols.end()) { it->second.count++; return; } }
     rep().violation(fmt("oracle-endian:%s:%s", tname, op), fmt("HostEndian<%s>::%s(bytes %s) = bytes %s, expected bytes %s", tname, op, bits(x).c_str(), bits(got).c_str(), bits(exp).c_str()),
                     case_desc(tname, -1, op, J().s("bytes", bits(x)).str()));
   }
